@@ -4,7 +4,7 @@ tier=${1:-quick}
 cd "$(dirname "$0")/.."
 for p in $(python3 -c "import json; print(' '.join(c['property_id'] for c in json.load(open('MANIFEST.json'))['checks']))"); do
   s=$(date +%s)
-  out=$(./check.py $p --tier $tier 2>/dev/null | grep -E "^(SUMMARY|VIOLATION|UNCONFIRMED|INCONCLUSIVE|KNOWN)" | cut -c1-220)
+  out=$(./check.py $p --tier $tier 2>/dev/null | grep -E "^(SUMMARY|VIOLATION|UNCONFIRMED|INCONCLUSIVE|KNOWN|BOUNDED)" | cut -c1-220)
   rc=$?
   echo "== $p ($(( $(date +%s) - s ))s)"; echo "$out"
 done
